@@ -216,6 +216,8 @@ def validate_trace(module, cfg, trace_path, n_events, max_violations=12, timeout
     known_hits = {}
     validate_trace.invariants = inv_hit
     validate_trace.known_hits = known_hits
+    notes = {}
+    validate_trace.notes = notes      # conformance notes printed by a trace spec (never violations)
     states = 0
     trans = 0
     matched_total = 0
@@ -232,6 +234,9 @@ def validate_trace(module, cfg, trace_path, n_events, max_violations=12, timeout
             mk = re.match(r'<<"KNOWN", "(\w+)", (\d+)>>', p)
             if mk:
                 known_hits.setdefault(mk.group(1), set()).add(int(mk.group(2)))
+            mn = re.match(r'<<"NOTE", "([^"]+)", (\d+)>>', p)
+            if mn:
+                notes.setdefault(mn.group(1), set()).add(int(mn.group(2)))
         if m is None and r.violated and r.violated not in ("TraceAccepted", "assumption"):
             # an invariant of the specification is false in a state of the trace: the event that
             # led into that state is the rejected one (the state's l is one past it)
